@@ -337,6 +337,12 @@ W = {
  "fd1": "import os; os.write(1, b'z' * %d)" % size,
  "fd2": "import os; os.write(2, b'e' * %d)" % min(size, 100),
  "child": "import subprocess, sys; subprocess.call([sys.executable, '-c', 'import sys; sys.stdout.write(chr(113) * %d)'])" % size,
+ # non-ASCII text on the worker's stdout (whatever its locale says), and readers of its standard input
+ "print-uni": "print('\\u00e9\\u20ac\\U0001f600' * %d)" % size,
+ "stdout-uni": "import sys; sys.stdout.write('\\u00e9\\u20ac' * %d); sys.stdout.flush()" % size,
+ "fd0": "import os; assert os.read(0, 10) == b'', 'fd 0 is not empty'",
+ "stdin-read": "import sys; assert sys.stdin.read() == '', 'sys.stdin is not empty'",
+ "child-stdin": "import subprocess, sys; assert subprocess.run([sys.executable, '-c', 'import sys; sys.stdout.write(str(len(sys.stdin.buffer.read())))'], capture_output=True, timeout=15).stdout == b'0', 'a child process could read something from the inherited stdin'",
 }[prog]
 parts = ["channel.send(('a', 1))", "channel.send(('b', b'\\x00\\x01' * 3))", "channel.send(('c', channel.receive()))"]
 parts.insert({"before": 0, "between": 1, "after": 3}[pos], W)
@@ -358,11 +364,19 @@ print(json.dumps(out, default=repr))
 '''
 
 
+STDIO_ENVS = {
+    "default": {},
+    "io-ascii": {"PYTHONIOENCODING": "ascii"},
+    "c-locale": {"LC_ALL": "C", "LANG": "C", "PYTHONCOERCECLOCALE": "0", "PYTHONUTF8": "0"},
+}
+
+
 def stdio_cell(cell):
-    transport, model, prog, size, pos = cell
+    transport, model, prog, size, pos = cell[:5]
     env = dict(os.environ)
     env["PYTHONPATH"] = "/repo/src"
     env.pop("EXECNET_DEBUG", None)
+    env.update(STDIO_ENVS[cell[5] if len(cell) > 5 else "default"])
     try:
         r = subprocess.run([sys.executable, "-c", STDIO_CELL, transport, model, prog, str(size), pos], capture_output=True, text=True, timeout=120, env=env, stdin=subprocess.DEVNULL)
         line = r.stdout.strip().splitlines()[-1] if r.stdout.strip() else f"NO-OUTPUT rc={r.returncode} {r.stderr[-300:]}"
@@ -441,6 +455,15 @@ def run(tier: str, only=None) -> int:
                         if tier == "quick" and model == "main_thread_only" and pos != "before":
                             continue
                         cells.append((transport, model, prog, size, pos))
+    for transport in ("popen", "python", "via"):
+        for model in ("thread", "main_thread_only"):
+            if model == "main_thread_only" and (transport != "popen" and tier == "quick"):
+                continue
+            for prog in ("print-uni", "stdout-uni"):
+                for envname in STDIO_ENVS:
+                    cells.append((transport, model, prog, 3, "between", envname))
+            for prog in ("fd0", "stdin-read", "child-stdin"):
+                cells.append((transport, model, prog, 1, "between", "default"))
     res = pmap(lambda chunk: [stdio_cell(c) for c in chunk], [cells[i::16] for i in range(16)])
     flat = [x for chunk in res for x in chunk]
     base = {}
